@@ -284,9 +284,20 @@ def run(chk, repo, tier):
     SYMPY_CLASS = {'Equality': 'sympy.Eq', 'Unequality': 'sympy.Ne', 'LessThan': 'sympy.Le', 'StrictLessThan': 'sympy.Lt',
                    'GreaterThan': 'sympy.Ge', 'StrictGreaterThan': 'sympy.Gt', 'Or': 'sympy.Or', 'And': 'sympy.And',
                    'Not': 'sympy.Not'}
+    # printer methods installed on the class from a table: setattr(NMTranPrinter, '_print_X', factory('.OP.')) (the loop over
+    # the table is unrolled by sa/unroll.py)
+    installed = {}
+    for c_ in ast.walk(crm.tree):
+        if isinstance(c_, ast.Call) and dotted(c_.func) == 'setattr' and len(c_.args) == 3 and unparse(c_.args[0]) == pr.name \
+                and isinstance(c_.args[1], ast.Constant) and isinstance(c_.args[1].value, str):
+            installed[c_.args[1].value] = c_
     for cls, want in SYMPY_CLASS.items():
         m = pr.methods.get(f'_print_{cls}')
         chk.instance(B3, f'NMTranPrinter._print_{cls}')
+        if m is None and f'_print_{cls}' in installed:
+            class _M:           # stands for the installed method: the constants of the installing call are its tokens
+                node = installed[f'_print_{cls}']
+            m = _M
         if m is None:
             chk.violation(B3, crm.rel, 'NMTranPrinter', f'no _print_{cls}',
                           f'{cls} is printed in sympy syntax, which is not NM-TRAN', witness=f'a condition with {cls}')
